@@ -128,6 +128,10 @@ def generate(rng, tier, rep):
             # a parent process in an unusual but legal state: the child must be started and read as ever
             c['odd'] = [['syspath_pathobj'], ['environ_nonascii'], ['syspath_pathobj', 'environ_nonascii'], []][i % 4]
         cases.append(c)
+    # real children that end because an exception escapes the run (KeyboardInterrupt in a test, SystemExit in a layer hook):
+    # no report is due, the parent records the error
+    for i, where in enumerate(['kbd_body', 'exit_setUp', 'exit_tearDown', 'kbd_body'][:{'quick': 4, 'thorough': 4, 'search': 0}[tier]]):
+        cases.append({'kind': 'real', 'how': 'exc', 'where': where, 'ntests': 1 + i % 3, 'bad': i % 2})
     # real children that finish normally and report the same failing name more than once (--repeat)
     for i in range({'quick': 3, 'thorough': 12, 'search': 0}[tier]):
         cases.append({'kind': 'real', 'how': 'exit0', 'where': 'none', 'ntests': 1 + i % 3, 'bad': 1, 'repeat': 2 + i % 2})
@@ -166,6 +170,12 @@ def world_of(c):
         layer['hooks']['tearDown'] = ['die:' + c['how']]
     elif c['where'] == 'body':
         w['tests'][-1]['body'] = ['die', c['how']]
+    elif c['where'] == 'kbd_body':
+        w['tests'][-1]['body'] = 'kbd'
+    elif c['where'] == 'exit_setUp':
+        layer['hooks']['setUp'] = ['sysexit']
+    elif c['where'] == 'exit_tearDown':
+        layer['hooks']['tearDown'] = ['sysexit']
     elif c['where'] == 'spawn':
         w['child_cwd'] = '/nonexistent/verif/dir'
     elif c['where'] == 'spawn_nul':
